@@ -79,7 +79,8 @@ func (t *PatternType) Default() px.Type {
 
 func (t *PatternType) Equals(o interface{}, g px.Guard) bool {
 	if ot, ok := o.(*PatternType); ok {
-		return len(t.regexps) == len(ot.regexps) && px.IncludesAll(t.regexps, ot.regexps, g)
+		// same set of patterns: each includes the patterns of the other
+		return px.IncludesAll(t.regexps, ot.regexps, g) && px.IncludesAll(ot.regexps, t.regexps, g)
 	}
 	return false
 }
@@ -93,8 +94,12 @@ func (t *PatternType) Get(key string) (value px.Value, ok bool) {
 }
 
 func (t *PatternType) IsAssignable(o px.Type, g px.Guard) bool {
-	if _, ok := o.(*PatternType); ok {
-		return len(t.regexps) == 0
+	if ot, ok := o.(*PatternType); ok {
+		if len(t.regexps) == 0 {
+			return true
+		}
+		// every regexp of the other pattern must be one of ours
+		return len(ot.regexps) > 0 && px.IncludesAll(ot.regexps, t.regexps, g)
 	}
 
 	if _, ok := o.(*stringType); ok {
